@@ -3,6 +3,7 @@ package main
 import (
 	"fmt"
 	"go/ast"
+	"go/token"
 	"go/types"
 	"strings"
 )
@@ -435,17 +436,6 @@ func runC07(c *Ctx) {
 	if rt := p.Func("rtpconn", "", "requestedTracks"); rt != nil {
 		ff := eng.Analyze(rt)
 		info := rt.Pkg.TypesInfo
-		var findObj types.Object
-		ast.Inspect(rt.Body(), func(n ast.Node) bool {
-			if as, ok := n.(*ast.AssignStmt); ok && len(as.Rhs) == 1 {
-				if _, isLit := as.Rhs[0].(*ast.FuncLit); isLit {
-					if id, ok := as.Lhs[0].(*ast.Ident); ok {
-						findObj = info.ObjectOf(id)
-					}
-				}
-			}
-			return true
-		})
 		flag := func(name string) *Term {
 			if o := rt.localVar(name); o != nil {
 				return TVar(o)
@@ -454,33 +444,212 @@ func runC07(c *Ctx) {
 		}
 		audio, video, low := flag("audio"), flag("video"), flag("videoLow")
 		seen := map[string]bool{}
-		ast.Inspect(rt.Body(), func(n ast.Node) bool {
-			call, ok := n.(*ast.CallExpr)
-			if !ok || len(call.Args) != 2 {
-				return true
+		// the track list: the parameter of requestedTracks that is a slice of up tracks
+		var tracksObj types.Object
+		for _, po := range rt.params(info) {
+			if po == nil {
+				continue
 			}
-			id, ok := unparen(call.Fun).(*ast.Ident)
-			if !ok || info.ObjectOf(id) != findObj {
-				return true
+			if sl, ok := po.Type().Underlying().(*types.Slice); ok {
+				if nt, ok := sl.Elem().(*types.Named); ok && nt.Obj().Name() == "UpTrack" {
+					tracksObj = po
+				}
 			}
-			kind := types.ExprString(call.Args[0])
-			last := types.ExprString(call.Args[1])
-			st, _ := ff.At(call)
-			if st == nil || audio == nil || video == nil || low == nil {
-				return true
+		}
+		// a selection is a loop over the track list that skips tracks of another kind,
+		// remembers the track and stops at the first one or runs to the last one; it is
+		// either written out under its flag or sits in a local function called with the
+		// kind and the first/last choice
+		type selection struct {
+			loop  *ast.RangeStmt
+			kind  ast.Expr // K of `v.Kind() != K`
+			stop  ast.Expr // C of `if C { break }` (nil: never stops)
+			inLit *ast.FuncLit
+		}
+		var sels []selection
+		var walkSel func(n ast.Node, lit *ast.FuncLit)
+		walkSel = func(root ast.Node, lit *ast.FuncLit) {
+			ast.Inspect(root, func(n ast.Node) bool {
+				if fl, ok := n.(*ast.FuncLit); ok && n != root {
+					walkSel(fl.Body, fl)
+					return false
+				}
+				rs, ok := n.(*ast.RangeStmt)
+				if !ok {
+					return true
+				}
+				if id, ok := unparen(rs.X).(*ast.Ident); !ok || info.Uses[id] != tracksObj || tracksObj == nil {
+					return true
+				}
+				val, _ := rs.Value.(*ast.Ident)
+				if val == nil {
+					return true
+				}
+				vobj := info.ObjectOf(val)
+				sel := selection{loop: rs, inLit: lit}
+				okShape := true
+				remembered := false
+				for _, st := range rs.Body.List {
+					switch x := st.(type) {
+					case *ast.IfStmt:
+						if x.Init != nil || x.Else != nil || len(x.Body.List) != 1 {
+							okShape = false
+							continue
+						}
+						br, isBr := x.Body.List[0].(*ast.BranchStmt)
+						if !isBr || br.Label != nil {
+							okShape = false
+							continue
+						}
+						switch br.Tok {
+						case token.CONTINUE:
+							// v.Kind() != K, before the track is remembered
+							be, isB := unparen(x.Cond).(*ast.BinaryExpr)
+							if !isB || be.Op != token.NEQ || remembered || sel.kind != nil {
+								okShape = false
+								continue
+							}
+							call, isC := unparen(be.X).(*ast.CallExpr)
+							if !isC || len(call.Args) != 0 {
+								okShape = false
+								continue
+							}
+							se, isS := unparen(call.Fun).(*ast.SelectorExpr)
+							if !isS || se.Sel.Name != "Kind" {
+								okShape = false
+								continue
+							}
+							if id, isId := unparen(se.X).(*ast.Ident); !isId || info.Uses[id] != vobj {
+								okShape = false
+								continue
+							}
+							sel.kind = be.Y
+						case token.BREAK:
+							if !remembered || sel.stop != nil {
+								okShape = false
+								continue
+							}
+							sel.stop = x.Cond
+						default:
+							okShape = false
+						}
+					case *ast.AssignStmt:
+						// track = v
+						if len(x.Lhs) == 1 && len(x.Rhs) == 1 {
+							if id, isId := unparen(x.Rhs[0]).(*ast.Ident); isId && info.Uses[id] == vobj && sel.kind != nil {
+								remembered = true
+								continue
+							}
+						}
+						okShape = false
+					case *ast.IncDecStmt:
+						// count++
+					default:
+						okShape = false
+					}
+				}
+				if okShape && remembered && sel.kind != nil {
+					sels = append(sels, sel)
+				} else {
+					seen["other:loop at "+p.PosStr(rs.Pos())] = true
+				}
+				return false
+			})
+		}
+		walkSel(rt.Body(), nil)
+		// classify one selection given the values of the enclosing literal's parameters
+		classify := func(sel selection, bind map[types.Object]ast.Expr, at ast.Node) {
+			resolve := func(e ast.Expr) ast.Expr {
+				e = unparen(e)
+				if id, ok := e.(*ast.Ident); ok {
+					if b, ok := bind[info.Uses[id]]; ok {
+						return unparen(b)
+					}
+				}
+				return e
+			}
+			kind := types.ExprString(resolve(sel.kind))
+			// first: the loop stops at the first match
+			first, known := false, true
+			if sel.stop != nil {
+				e := unparen(sel.stop)
+				neg := false
+				for {
+					if u, ok := e.(*ast.UnaryExpr); ok && u.Op == token.NOT {
+						neg, e = !neg, unparen(u.X)
+						continue
+					}
+					break
+				}
+				if tv, ok := info.Types[resolve(e)]; ok && tv.Value != nil && (tv.Value.String() == "true" || tv.Value.String() == "false") {
+					first = (tv.Value.String() == "true") != neg
+				} else {
+					known = false
+				}
+			}
+			st, _ := ff.At(at)
+			if st == nil || audio == nil || video == nil || low == nil || !known {
+				seen["other:"+kind+" at "+p.PosStr(at.Pos())] = true
+				return
 			}
 			switch {
-			case strings.HasSuffix(kind, "RTPCodecTypeAudio") && last == "false" && st.HasFact(mkFact(true, "true", audio, nil)):
+			case strings.HasSuffix(kind, "RTPCodecTypeAudio") && first && st.HasFact(mkFact(true, "true", audio, nil)):
 				seen["audio"] = true
-			case strings.HasSuffix(kind, "RTPCodecTypeVideo") && last == "false" && st.HasFact(mkFact(true, "true", video, nil)):
+			case strings.HasSuffix(kind, "RTPCodecTypeVideo") && first && st.HasFact(mkFact(true, "true", video, nil)):
 				seen["video"] = true
-			case strings.HasSuffix(kind, "RTPCodecTypeVideo") && last == "true" && st.HasFact(mkFact(false, "true", video, nil)) && st.HasFact(mkFact(true, "true", low, nil)):
+			case strings.HasSuffix(kind, "RTPCodecTypeVideo") && !first && st.HasFact(mkFact(false, "true", video, nil)) && st.HasFact(mkFact(true, "true", low, nil)):
 				seen["video-low"] = true
 			default:
-				seen["other:"+kind+","+last] = true
+				seen[fmt.Sprintf("other:%s,first=%v at %s", kind, first, p.PosStr(at.Pos()))] = true
 			}
-			return true
-		})
+		}
+		for _, sel := range sels {
+			if sel.inLit == nil {
+				classify(sel, nil, sel.loop.X)
+				continue
+			}
+			// the literal is bound to a local and called with constants
+			var litObj types.Object
+			ast.Inspect(rt.Body(), func(n ast.Node) bool {
+				if as, ok := n.(*ast.AssignStmt); ok && len(as.Rhs) == 1 && len(as.Lhs) == 1 && unparen(as.Rhs[0]) == ast.Expr(sel.inLit) {
+					if id, ok := as.Lhs[0].(*ast.Ident); ok {
+						litObj = info.ObjectOf(id)
+					}
+				}
+				return true
+			})
+			ncalls := 0
+			var lparams []types.Object
+			for _, fld := range sel.inLit.Type.Params.List {
+				for _, nm := range fld.Names {
+					lparams = append(lparams, info.Defs[nm])
+				}
+			}
+			ast.Inspect(rt.Body(), func(n ast.Node) bool {
+				switch x := n.(type) {
+				case *ast.CallExpr:
+					if id, ok := unparen(x.Fun).(*ast.Ident); ok && litObj != nil && info.Uses[id] == litObj && len(x.Args) == len(lparams) {
+						ncalls++
+						bind := map[types.Object]ast.Expr{}
+						for i, po := range lparams {
+							bind[po] = x.Args[i]
+						}
+						classify(sel, bind, x)
+					}
+				case *ast.Ident:
+					// any other use of the literal's name (passed on, reassigned) is not understood
+					if litObj != nil && info.Uses[x] == litObj {
+						if call, ok := p.Parent(rt.File, x).(*ast.CallExpr); !ok || unparen(call.Fun) != ast.Expr(x) {
+							seen["other:use of the selection function at "+p.PosStr(x.Pos())] = true
+						}
+					}
+				}
+				return true
+			})
+			if ncalls == 0 {
+				seen["other:selection function never called"] = true
+			}
+		}
 		var other []string
 		for k := range seen {
 			if strings.HasPrefix(k, "other:") {
@@ -488,62 +657,106 @@ func runC07(c *Ctx) {
 			}
 		}
 		c.Check(seen["audio"] && seen["video"] && seen["video-low"] && len(other) == 0, "R7.5", "kinds select the first audio, first video, last video for video-low", rt.Pos(),
-			"find(Audio,false) under audio; find(Video,false) under video; find(Video,true) under !video && videoLow", fmt.Sprintf("the selection table changed: %v", seen))
-		// the flags are set by the matching strings
+			"first audio track under audio; first video track under video; last video track under !video && videoLow", fmt.Sprintf("the selection table changed: %v", seen))
+		// the flags are set by the matching strings: a flag (or a local it is copied
+		// from) becomes true only where the request element compared equal to its string
 		okFlags := true
-		for name, want := range map[string]string{"audio": "audio", "video": "video", "videoLow": "video-low"} {
-			o := rt.localVar(name)
-			found := false
-			ast.Inspect(rt.Body(), func(n ast.Node) bool {
-				as, ok := n.(*ast.AssignStmt)
-				if !ok || len(as.Lhs) != 1 {
-					return true
+		var reqObj types.Object
+		for _, po := range rt.params(info) {
+			if po == nil {
+				continue
+			}
+			if sl, ok := po.Type().Underlying().(*types.Slice); ok {
+				if bt, ok := sl.Elem().Underlying().(*types.Basic); ok && bt.Kind() == types.String {
+					reqObj = po
 				}
-				if id, ok := as.Lhs[0].(*ast.Ident); ok && info.ObjectOf(id) == o {
-					cases := p.enclosingCase(rt, as, "s")
-					if len(cases) == 1 && cases[0] == want {
-						found = true
-					} else {
-						okFlags = false
+			}
+		}
+		elemVars := map[types.Object]bool{} // value variables of loops over the request
+		ast.Inspect(rt.Body(), func(n ast.Node) bool {
+			if rs, ok := n.(*ast.RangeStmt); ok {
+				if id, ok := unparen(rs.X).(*ast.Ident); ok && reqObj != nil && info.Uses[id] == reqObj {
+					if v, ok := rs.Value.(*ast.Ident); ok {
+						elemVars[info.ObjectOf(v)] = true
 					}
 				}
-				return true
-			})
+			}
+			return true
+		})
+		for name, want := range map[string]string{"audio": "audio", "video": "video", "videoLow": "video-low"} {
+			o := rt.localVar(name)
+			if o == nil {
+				okFlags = false
+				continue
+			}
+			work, done := []types.Object{o}, map[types.Object]bool{o: true}
+			found := false
+			for len(work) > 0 {
+				v := work[0]
+				work = work[1:]
+				ast.Inspect(rt.Body(), func(n ast.Node) bool {
+					as, ok := n.(*ast.AssignStmt)
+					if !ok {
+						return true
+					}
+					for i, l := range as.Lhs {
+						id, ok := l.(*ast.Ident)
+						if !ok || info.ObjectOf(id) != v {
+							continue
+						}
+						if len(as.Rhs) != len(as.Lhs) {
+							okFlags = false // result of a call: not understood
+							continue
+						}
+						rhs := unparen(as.Rhs[i])
+						if tv := info.Types[rhs]; tv.Value != nil {
+							if tv.Value.String() == "false" {
+								continue
+							}
+							// true: only under element == want
+							st, _ := ff.At(as)
+							under := false
+							if st != nil {
+								for _, f := range st.Facts() {
+									if f.Op != "eq" || !f.Pos || f.B == nil {
+										continue
+									}
+									for _, pr := range [][2]*Term{{f.A, f.B}, {f.B, f.A}} {
+										if pr[0].K == 'v' && elemVars[pr[0].Obj] && pr[1].K == 'c' && pr[1].Name == fmt.Sprintf("%q", want) {
+											under = true
+										}
+									}
+								}
+							}
+							if under {
+								found = true
+							} else {
+								okFlags = false
+							}
+							continue
+						}
+						if rid, ok := rhs.(*ast.Ident); ok {
+							if u, isVar := info.Uses[rid].(*types.Var); isVar {
+								if !done[u] {
+									done[u] = true
+									work = append(work, u)
+								}
+								continue
+							}
+						}
+						okFlags = false
+					}
+					return true
+				})
+			}
 			if !found {
 				okFlags = false
 			}
 		}
 		c.Check(okFlags, "R7.5", "request strings map to their kinds", rt.Pos(), "\"audio\", \"video\", \"video-low\" set exactly their flag", "a request string selects another kind")
 		// limitSid only on the video-low path with fewer than two video tracks
-		okLimit := true
-		nset := 0
-		lim := rt.localVar("limitSid")
-		ast.Inspect(rt.Body(), func(n ast.Node) bool {
-			as, ok := n.(*ast.AssignStmt)
-			if !ok || len(as.Lhs) != 1 || as.Tok.String() != "=" {
-				return true
-			}
-			if id, ok := as.Lhs[0].(*ast.Ident); ok && info.ObjectOf(id) == lim {
-				if tv := info.Types[as.Rhs[0]]; tv.Value != nil && tv.Value.String() == "true" {
-					nset++
-					st, _ := ff.At(as)
-					if st == nil || !st.HasFact(mkFact(true, "true", low, nil)) || !st.HasFact(mkFact(false, "true", video, nil)) {
-						okLimit = false
-					}
-					lt := false
-					for _, fa := range st.Facts() {
-						if fa.Op == "lt" && fa.Pos && fa.B != nil && fa.B.Name == "2" {
-							lt = true
-						}
-					}
-					if !lt {
-						okLimit = false
-					}
-				}
-			}
-			return true
-		})
-		c.Check(okLimit && nset == 1, "R7.5", "low quality from a non-simulcast publisher limits the spatial layer", rt.Pos(), "limitSid = true only under videoLow && !video && count < 2", "limitSid is set under other conditions (or never)")
+		okLimit, nset := limitRequestOK(p, rt)
+		c.Check(okLimit && nset == 1, "R7.5", "low quality from a non-simulcast publisher limits the spatial layer", rt.Pos(), "limitSid becomes true only under videoLow && !video && count < 2", "limitSid is set under other conditions (or never)")
 		// replaceTracks stores limitSid into every track and forces wantedSid 0
 		if rp := p.Func("rtpconn", "", "replaceTracks"); rp != nil {
 			okStore, okForce := false, false
